@@ -171,7 +171,10 @@ def run(ctx):
         monitor_all(ctx, "mon-miri", mtr, cfg, totals)
     if bad:
         ctx.violations.append((bad, "miri-error", "miri"))
-    if totals["onesdrift"]:
+    if totals["onesdrift"] and c05.fix_ones():
+        # the model is the repaired code: a different shape of UBig::ones is a storage-invariant violation of the code
+        ctx.violations.append(({"op": "ones", "n": 128, "events": totals["onesdrift"]}, "ones-shape-differs-from-the-storage-model", "drift"))
+    elif totals["onesdrift"]:
         raise fw.ToolError("observed shape of UBig::ones disagrees with ReprAlg!A_Ones for FixOnes = %s: the model does not "
                            "correspond to the code (flip FixOnes in spec/C05/MC_ReprLayer.cfg)" % c05.fix_ones())
     ctx.drift = totals["shapedrift"]
